@@ -6,6 +6,7 @@ open Bool
 open Datatypes
 open Json
 open List
+open Options
 open OutViews
 open Plain
 open Pragma
@@ -600,6 +601,259 @@ let extras c model_out =
               EmptyString)))))))))))) alt)
      else true))) :: []))))))))))
 
+(** val regex_table : jv -> str -> bool **)
+
+let regex_table c p =
+  existsb (fun x ->
+    match x with
+    | JArr l ->
+      (match l with
+       | [] -> false
+       | j :: l0 ->
+         (match j with
+          | JStr q ->
+            (match l0 with
+             | [] -> false
+             | j0 :: l1 ->
+               (match j0 with
+                | JBool b ->
+                  (match l1 with
+                   | [] -> (&&) (str_eqb p q) b
+                   | _ :: _ -> false)
+                | _ -> false))
+          | _ -> false))
+    | _ -> false)
+    (jarr
+      (jfield_d (String ((Ascii (false, true, false, false, true, true, true,
+        false)), (String ((Ascii (true, false, true, false, false, true,
+        true, false)), (String ((Ascii (true, true, true, false, false, true,
+        true, false)), (String ((Ascii (true, false, true, false, false,
+        true, true, false)), (String ((Ascii (false, false, false, true,
+        true, true, true, false)), (String ((Ascii (true, true, true, true,
+        true, false, true, false)), (String ((Ascii (false, true, true,
+        false, true, true, true, false)), (String ((Ascii (true, false,
+        false, false, false, true, true, false)), (String ((Ascii (false,
+        false, true, true, false, true, true, false)), (String ((Ascii (true,
+        false, false, true, false, true, true, false)), (String ((Ascii
+        (false, false, true, false, false, true, true, false)),
+        EmptyString)))))))))))))))))))))) c))
+
+(** val opt_corr : jv -> bool **)
+
+let opt_corr c =
+  let parsed =
+    parse_options (regex_table c)
+      (jfield_d (String ((Ascii (true, true, true, true, false, true, true,
+        false)), (String ((Ascii (false, false, false, false, true, true,
+        true, false)), (String ((Ascii (false, false, true, false, true,
+        true, true, false)), (String ((Ascii (true, false, false, true,
+        false, true, true, false)), (String ((Ascii (true, true, true, true,
+        false, true, true, false)), (String ((Ascii (false, true, true, true,
+        false, true, true, false)), (String ((Ascii (true, true, false,
+        false, true, true, true, false)), (String ((Ascii (true, true, true,
+        true, true, false, true, false)), (String ((Ascii (false, true,
+        false, true, false, true, true, false)), (String ((Ascii (true, true,
+        false, false, true, true, true, false)), (String ((Ascii (true, true,
+        true, true, false, true, true, false)), (String ((Ascii (false, true,
+        true, true, false, true, true, false)),
+        EmptyString)))))))))))))))))))))))) c)
+  in
+  (match jfield_d (String ((Ascii (true, true, false, false, true, true,
+           true, false)), (String ((Ascii (false, false, true, false, true,
+           true, true, false)), (String ((Ascii (true, false, false, false,
+           false, true, true, false)), (String ((Ascii (false, false, true,
+           false, true, true, true, false)), (String ((Ascii (true, false,
+           true, false, true, true, true, false)), (String ((Ascii (true,
+           true, false, false, true, true, true, false)),
+           EmptyString)))))))))))) c with
+   | JStr st0 ->
+     if sq (String ((Ascii (false, true, false, false, false, true, true,
+          false)), (String ((Ascii (true, false, false, false, false, true,
+          true, false)), (String ((Ascii (false, false, true, false, false,
+          true, true, false)), (String ((Ascii (true, false, true, true,
+          false, true, false, false)), (String ((Ascii (true, true, true,
+          true, false, true, true, false)), (String ((Ascii (false, false,
+          false, false, true, true, true, false)), (String ((Ascii (false,
+          false, true, false, true, true, true, false)), (String ((Ascii
+          (true, false, false, true, false, true, true, false)), (String
+          ((Ascii (true, true, true, true, false, true, true, false)),
+          (String ((Ascii (false, true, true, true, false, true, true,
+          false)), (String ((Ascii (true, true, false, false, true, true,
+          true, false)), EmptyString)))))))))))))))))))))) st0
+     then (match parsed with
+           | Some _ -> false
+           | None -> true)
+     else (match parsed with
+           | Some r ->
+             let h =
+               jfield_d (String ((Ascii (true, true, true, true, false, true,
+                 true, false)), (String ((Ascii (false, false, false, false,
+                 true, true, true, false)), (String ((Ascii (false, false,
+                 true, false, true, true, true, false)), (String ((Ascii
+                 (true, false, false, true, false, true, true, false)),
+                 (String ((Ascii (true, true, true, true, false, true, true,
+                 false)), (String ((Ascii (false, true, true, true, false,
+                 true, true, false)), (String ((Ascii (true, true, false,
+                 false, true, true, true, false)), EmptyString)))))))))))))) c
+             in
+             (&&)
+               ((&&)
+                 ((&&)
+                   ((&&)
+                     ((&&)
+                       ((&&)
+                         (eqb r.ro_transform_on
+                           (jbool_d
+                             (jfield_d (String ((Ascii (false, false, true,
+                               false, true, true, true, false)), (String
+                               ((Ascii (false, true, false, false, true,
+                               true, true, false)), (String ((Ascii (true,
+                               false, false, false, false, true, true,
+                               false)), (String ((Ascii (false, true, true,
+                               true, false, true, true, false)), (String
+                               ((Ascii (true, true, false, false, true, true,
+                               true, false)), (String ((Ascii (false, true,
+                               true, false, false, true, true, false)),
+                               (String ((Ascii (true, true, true, true,
+                               false, true, true, false)), (String ((Ascii
+                               (false, true, false, false, true, true, true,
+                               false)), (String ((Ascii (true, false, true,
+                               true, false, true, true, false)), (String
+                               ((Ascii (true, true, true, true, false, false,
+                               true, false)), (String ((Ascii (false, true,
+                               true, true, false, true, true, false)),
+                               EmptyString)))))))))))))))))))))) h)))
+                         (eqb r.ro_optimize
+                           (jbool_d
+                             (jfield_d (String ((Ascii (true, true, true,
+                               true, false, true, true, false)), (String
+                               ((Ascii (false, false, false, false, true,
+                               true, true, false)), (String ((Ascii (false,
+                               false, true, false, true, true, true, false)),
+                               (String ((Ascii (true, false, false, true,
+                               false, true, true, false)), (String ((Ascii
+                               (true, false, true, true, false, true, true,
+                               false)), (String ((Ascii (true, false, false,
+                               true, false, true, true, false)), (String
+                               ((Ascii (false, true, false, true, true, true,
+                               true, false)), (String ((Ascii (true, false,
+                               true, false, false, true, true, false)),
+                               EmptyString)))))))))))))))) h))))
+                       (eqb r.ro_merge_props
+                         (jbool_d
+                           (jfield_d (String ((Ascii (true, false, true,
+                             true, false, true, true, false)), (String
+                             ((Ascii (true, false, true, false, false, true,
+                             true, false)), (String ((Ascii (false, true,
+                             false, false, true, true, true, false)), (String
+                             ((Ascii (true, true, true, false, false, true,
+                             true, false)), (String ((Ascii (true, false,
+                             true, false, false, true, true, false)), (String
+                             ((Ascii (false, false, false, false, true,
+                             false, true, false)), (String ((Ascii (false,
+                             true, false, false, true, true, true, false)),
+                             (String ((Ascii (true, true, true, true, false,
+                             true, true, false)), (String ((Ascii (false,
+                             false, false, false, true, true, true, false)),
+                             (String ((Ascii (true, true, false, false, true,
+                             true, true, false)),
+                             EmptyString)))))))))))))))))))) h))))
+                     (eqb r.ro_object_slots
+                       (jbool_d
+                         (jfield_d (String ((Ascii (true, false, true, false,
+                           false, true, true, false)), (String ((Ascii
+                           (false, true, true, true, false, true, true,
+                           false)), (String ((Ascii (true, false, false,
+                           false, false, true, true, false)), (String ((Ascii
+                           (false, true, false, false, false, true, true,
+                           false)), (String ((Ascii (false, false, true,
+                           true, false, true, true, false)), (String ((Ascii
+                           (true, false, true, false, false, true, true,
+                           false)), (String ((Ascii (true, true, true, true,
+                           false, false, true, false)), (String ((Ascii
+                           (false, true, false, false, false, true, true,
+                           false)), (String ((Ascii (false, true, false,
+                           true, false, true, true, false)), (String ((Ascii
+                           (true, false, true, false, false, true, true,
+                           false)), (String ((Ascii (true, true, false,
+                           false, false, true, true, false)), (String ((Ascii
+                           (false, false, true, false, true, true, true,
+                           false)), (String ((Ascii (true, true, false,
+                           false, true, false, true, false)), (String ((Ascii
+                           (false, false, true, true, false, true, true,
+                           false)), (String ((Ascii (true, true, true, true,
+                           false, true, true, false)), (String ((Ascii
+                           (false, false, true, false, true, true, true,
+                           false)), (String ((Ascii (true, true, false,
+                           false, true, true, true, false)),
+                           EmptyString)))))))))))))))))))))))))))))))))) h))))
+                   (eqb r.ro_resolve_type
+                     (jbool_d
+                       (jfield_d (String ((Ascii (false, true, false, false,
+                         true, true, true, false)), (String ((Ascii (true,
+                         false, true, false, false, true, true, false)),
+                         (String ((Ascii (true, true, false, false, true,
+                         true, true, false)), (String ((Ascii (true, true,
+                         true, true, false, true, true, false)), (String
+                         ((Ascii (false, false, true, true, false, true,
+                         true, false)), (String ((Ascii (false, true, true,
+                         false, true, true, true, false)), (String ((Ascii
+                         (true, false, true, false, false, true, true,
+                         false)), (String ((Ascii (false, false, true, false,
+                         true, false, true, false)), (String ((Ascii (true,
+                         false, false, true, true, true, true, false)),
+                         (String ((Ascii (false, false, false, false, true,
+                         true, true, false)), (String ((Ascii (true, false,
+                         true, false, false, true, true, false)),
+                         EmptyString)))))))))))))))))))))) h))))
+                 (match r.ro_pragma with
+                  | Some a ->
+                    (match jstr
+                             (jfield_d (String ((Ascii (false, false, false,
+                               false, true, true, true, false)), (String
+                               ((Ascii (false, true, false, false, true,
+                               true, true, false)), (String ((Ascii (true,
+                               false, false, false, false, true, true,
+                               false)), (String ((Ascii (true, true, true,
+                               false, false, true, true, false)), (String
+                               ((Ascii (true, false, true, true, false, true,
+                               true, false)), (String ((Ascii (true, false,
+                               false, false, false, true, true, false)),
+                               EmptyString)))))))))))) h) with
+                     | Some b -> str_eqb a b
+                     | None -> false)
+                  | None ->
+                    (match jstr
+                             (jfield_d (String ((Ascii (false, false, false,
+                               false, true, true, true, false)), (String
+                               ((Ascii (false, true, false, false, true,
+                               true, true, false)), (String ((Ascii (true,
+                               false, false, false, false, true, true,
+                               false)), (String ((Ascii (true, true, true,
+                               false, false, true, true, false)), (String
+                               ((Ascii (true, false, true, true, false, true,
+                               true, false)), (String ((Ascii (true, false,
+                               false, false, false, true, true, false)),
+                               EmptyString)))))))))))) h) with
+                     | Some _ -> false
+                     | None -> true)))
+               (strs_eqb r.ro_patterns
+                 (jstrs
+                   (jfield_d (String ((Ascii (false, false, false, false,
+                     true, true, true, false)), (String ((Ascii (true, false,
+                     false, false, false, true, true, false)), (String
+                     ((Ascii (false, false, true, false, true, true, true,
+                     false)), (String ((Ascii (false, false, true, false,
+                     true, true, true, false)), (String ((Ascii (true, false,
+                     true, false, false, true, true, false)), (String ((Ascii
+                     (false, true, false, false, true, true, true, false)),
+                     (String ((Ascii (false, true, true, true, false, true,
+                     true, false)), (String ((Ascii (true, true, false,
+                     false, true, true, true, false)),
+                     EmptyString)))))))))))))))) h)))
+           | None -> false)
+   | _ -> true)
+
 (** val run_case : jv -> case_result **)
 
 let run_case c =
@@ -664,10 +918,29 @@ let run_case c =
                   false)), (String ((Ascii (true, true, false, false, true,
                   true, true, false)), EmptyString)))))))))) c))));
           cr_model_out = mo; cr_model_diags = s.diags; cr_extra =
-          (if real_ok then extras c mo else []) }
+          (((s_ (String ((Ascii (true, true, true, true, false, true, true,
+              false)), (String ((Ascii (false, false, false, false, true,
+              true, true, false)), (String ((Ascii (false, false, true,
+              false, true, true, true, false)), (String ((Ascii (true, true,
+              false, false, false, true, true, false)), (String ((Ascii
+              (true, true, true, true, false, true, true, false)), (String
+              ((Ascii (false, true, false, false, true, true, true, false)),
+              (String ((Ascii (false, true, false, false, true, true, true,
+              false)), EmptyString))))))))))))))),
+          (b2s (opt_corr c))) :: (if real_ok then extras c mo else [])) }
      else { cr_relevant = false; cr_roundtrip = true; cr_same_status = true;
             cr_same_out = true; cr_same_diag = true; cr_model_out = JNull;
-            cr_model_diags = []; cr_extra = [] }
+            cr_model_diags = []; cr_extra =
+            (((s_ (String ((Ascii (true, true, true, true, false, true, true,
+                false)), (String ((Ascii (false, false, false, false, true,
+                true, true, false)), (String ((Ascii (false, false, true,
+                false, true, true, true, false)), (String ((Ascii (true,
+                true, false, false, false, true, true, false)), (String
+                ((Ascii (true, true, true, true, false, true, true, false)),
+                (String ((Ascii (false, true, false, false, true, true, true,
+                false)), (String ((Ascii (false, true, false, false, true,
+                true, true, false)), EmptyString))))))))))))))),
+            (b2s (opt_corr c))) :: []) }
    | _ ->
      { cr_relevant = false; cr_roundtrip = true; cr_same_status = true;
        cr_same_out = true; cr_same_diag = true; cr_model_out = JNull;
